@@ -597,6 +597,42 @@ the random family, which was also run with VERIF_SEED=1 and 777 (held).  Wall 24
 address-space bound); on an idle machine that is about 120-150 s.  Thorough: 638 103 runs judged (462 220 class-string texts, 41 371
 directive soups, 13 494 mutants of 36 valid texts, 30 000 random texts, 90 927 texts again under -fsanitize=bounds), 48 min at load 45.
 
+Strengthening (2026-10-04, evening): two input classes added, both judged by the same TraceTotal validation.
+ (b') class "macro", spec/Macros.tla: a term calculus of source macros (definitions name(params) ==> body, one use, scopes top /
+      where / add / function body, visibility = the definitions in front of the use in its scope).  TLC enumerates the programs
+      (1 definition: all 1 168 shapes of level 3 x {all visible, something hidden}; 2 / 3 / 4 definitions strided), runs the
+      leftmost-outermost expansion with an active set and certifies mac-circular / mac-argc / mac-improper (and, in a typed
+      context, no-meaning); the law GraphLaw (first-order programs: circular <=> cycle of the definition graph reachable from
+      the use) is asserted on every exported program.  Rendered in the spellings `macro f(x) == b`, `f(x) ==> b`,
+      `f ==> (macro (x) +-> b)`, `macro { .. }`, alone (-Fap), in a typed axllib context (-Fao) and appended to valid texts.
+ (b'') class "call", spec/Calls.tla: signatures of <= 4 parameters (trailing defaults), applications with positional / keyword /
+      omitted arguments, two-valued arguments and results, overload contexts none / arity / types / ret, one defect each
+      (15 kinds); certificate no-signature; 55 156 applications in the full space (2 type patterns), laws BaseValid, AlwaysBad,
+      DropLaw, Trailing checked on all of them.
+ Reviewers' source changes (bin/seedtest, quick tier against a scratch worktree with the patch):
+   C07-1 scan.c:scanString    open string at end of input without newline loops      CAUGHT (as before): 20+ x fault:out-of-memory
+                                                                                     on enum inputs `a"`, `aa"`, ...
+   C07-2 macex.c:macId        circularity guard compares a copy                      MISSED before; CAUGHT now: fault:signal on
+                              macro inputs (mutual / direct / macro-function circles), site recursion:macex.c:macEx
+   C07-3 terror.c:guessOpMeanings  argf(ab, parN) instead of argN                    MISSED before; CAUGHT now: 19 x fault:program-
+                              fault + 1 x fault:out-of-memory on call inputs (defect type-kw with an omitted defaulted
+                              parameter in front), site comsg.c:comsgVDo
+ Own mutations (worktree, C07_ONLY=macro,call = a subset of the quick tier):
+   MX1 macex.c:macApply       `n != abArgc(params)` -> `n > abArgc(params)` (too few macro arguments accepted)     see below
+   MX3 tfsat.c:tfSatAsMulti   `usedc < argc` -> `usedc > argc` (superfluous / unknown keyword arguments accepted)   see below
+ New findings on the unchanged tree: the macro-function stack overflow (`macro f(x) == x(x); f(f)`; candidate patch
+ hooks/candidate-C07-macro-function-depth.diff) and the segmentation violation in terror.c:terrorAssignOrSetBang for
+ `(p: SingleInteger, q: String) := f()` with a two-valued f (hooks/candidate-C07-multi-assign-rhs-parts.diff); with both
+ patches applied (worktree) the two texts give ordinary errors.
+ Model corrections of this round (not findings): `f ==> macro (x) +-> b` needs parentheses in the grammar; a name defined
+ twice gets no certificate (the compiler expands the second body while the first definition is in force -- a third reading
+ besides "first wins" / "last wins"); a keyword argument in front of a positional one is accepted by the compiler whenever the
+ positional argument fits the parameter at its own place, so the guide's order rule alone certifies nothing; a non-terminating
+ expansion needs ~10 s CPU to exhaust an 8 MB stack (quadratic) but 0.1 s for 1 MB: class "macro" runs with `ulimit -s 1024`,
+ and a crash site 40 frames deep with one function >= 6 times is keyed "recursion:<function>".
+ Unchanged tree after the extension: quick held with VERIF_SEED default, 1, 2, 3 (49 879 runs judged, 10 KNOWN-FINDING lines),
+ 240 s wall at load 65-90 (1 280 CPU-seconds; the two new classes are 9 102 runs, about 400 CPU-seconds).
+
 Model corrections made during development (not findings):
  * a corpus text with an `#if 0 ... #endif` region: deleting a bracket inside the skipped region was certified "brackets".  Scan.tla
    does not transcribe the includer's conditionals, so SrcText!Faithful now withholds certificates from texts with #if/#else/#endif
